@@ -193,11 +193,16 @@ def run(ctx: Ctx):
         raise Machinery("control failed: TLC does not flag the inf-only policy as inaccurate")
 
     # (a) size sweep
-    ident = lambda names: {nm: "ACGT" for nm in names}
+    # repeated columns, so that site patterns carry weights other than one (a scaler must be counted weight times)
+    ident = lambda names: {nm: "ACGTAAC" for nm in names}
 
     def mixed(names):
         r = random.Random(7)
-        return {nm: "".join(r.choice("ACGT") for _ in range(3)) + "A" for nm in names}
+        out = {}
+        for nm in names:
+            col = "".join(r.choice("ACGT") for _ in range(3))
+            out[nm] = col + "A" + col[0] + col[0] + "A"      # columns 1 and 4 are repeated
+        return out
     sizes = [8, 64, 300, 372, 380, 384, 388, 392, 396, 404, 480, 512, 520, 528, 536, 560, 600, 800] if quick else \
         [8, 64, 200, 300] + list(range(340, 440, 2)) + list(range(480, 580, 4)) + [600, 700, 800, 1000, 1200]
     for kind in ("caterpillar", "balanced", "random"):
